@@ -132,6 +132,8 @@ class LockStep:
             ret = (r['ret'] & 1, r['ret'] == 0) if op == 'pe' else None
             o = {'trace': tr, 'ret': ret, 'config': config_names(r['canon'], z),
                  'pending': snapshot_fields(r['canon']).get('pending', []), 'esc': r['esc'] != '-'}
+            if 'pool_tombstones' in os.environ.get('VERIF_DEGRADED', ''):
+                o['pending'] = None     # backmp11's processed-but-not-erased pool entries cannot be told apart in this tree
             if self.compare_ids:
                 o['ids'] = raw_ids(r['canon'], z)
             if self.observe:
